@@ -35,6 +35,50 @@ pub open spec fn all_mode_args_ok(modes: Seq<(&str, Vec<&str>)>) -> bool {
     forall|k: int| 0 <= k < modes.len() ==> mode_args_ok((#[trigger] modes[k]).0@, modes[k].1@)
 }
 
+
+// ---- the EFFECT of an accepted mode string on the flags, key and limit (C08: "each accepted change is applied") ----
+pub ghost struct ModeVals { pub i: bool, pub m: bool, pub t: bool, pub n: bool, pub s: bool, pub key: Option<Seq<char>>, pub limit: Option<usize> }
+pub open spec fn mv_of(m: ChannelModes) -> ModeVals {
+    ModeVals { i: m.invite_only, m: m.moderated, t: m.protected_topic, n: m.no_external_messages, s: m.secret,
+        key: (if m.key is Some { Some(m.key->0@) } else { None }), limit: m.client_limit }
+}
+// one letter, with the sign in force and the argument it consumes (l and k only when setting)
+pub open spec fn mv_step(v: ModeVals, c: char, set: bool, arg: Seq<char>) -> ModeVals {
+    if c == 'i' { ModeVals { i: set, ..v } }
+    else if c == 'm' { ModeVals { m: set, ..v } }
+    else if c == 't' { ModeVals { t: set, ..v } }
+    else if c == 'n' { ModeVals { n: set, ..v } }
+    else if c == 's' { ModeVals { s: set, ..v } }
+    else if c == 'l' { ModeVals { limit: (if set { Some(usize_of_text(arg)) } else { None }), ..v } }
+    else if c == 'k' { ModeVals { key: (if set { Some(arg) } else { None }), ..v } }
+    else { v }
+}
+pub open spec fn arg_at(args: Seq<&str>, k: int) -> Seq<char> { if 0 <= k < args.len() { args[k]@ } else { Seq::empty() } }
+// the first i letters of one mode string applied from the left
+#[verifier::opaque]
+pub open spec fn mv_after(ms: Seq<char>, args: Seq<&str>, i: int, v0: ModeVals) -> ModeVals
+    decreases i
+{
+    if i <= 0 { v0 } else {
+        let st = vstate(ms, i - 1, args.len() as int);
+        mv_step(mv_after(ms, args, i - 1, v0), ms[i - 1], st.0, arg_at(args, st.1))
+    }
+}
+// the first k (mode string, arguments) pairs applied from the left
+#[verifier::opaque]
+pub open spec fn mv_all(mds: Seq<(&str, Vec<&str>)>, k: int, v0: ModeVals) -> ModeVals
+    decreases k
+{
+    if k <= 0 { v0 } else { mv_after(mds[k - 1].0@, mds[k - 1].1@, mds[k - 1].0@.len() as int, mv_all(mds, k - 1, v0)) }
+}
+
+// ---- the EFFECT of a rank letter (o v h q a) and of a list letter (b e I) ----
+pub open spec fn rank_of_letter(c: char) -> int { if c == 'q' { 0 } else if c == 'a' { 1 } else if c == 'o' { 2 } else if c == 'h' { 3 } else { 4 } }
+pub open spec fn rank_entitled(c: char, chum: ChannelUserModes) -> bool {
+    if c == 'q' { chum.founder } else if c == 'a' { is_prot(chum) } else if c == 'o' || c == 'h' { is_op(chum) } else { half_op(chum) }
+}
+pub open spec fn list_of(c: char, m: ChannelModes) -> Set<String> { if c == 'b' { oset(m.ban) } else if c == 'e' { oset(m.exception) } else { oset(m.invite_exception) } }
+
 // ---- the privilege matrix of the statement, as frame conditions ----
 pub open spec fn flags_eq(a: ChannelModes, b: ChannelModes) -> bool {
     a.invite_only == b.invite_only && a.moderated == b.moderated && a.secret == b.secret
@@ -75,70 +119,98 @@ pub proof fn lemma_rank_change_frame(o: Channel, m: Channel, n: Channel, nick: S
     }
 }
 
+// every nickname in `members` got exactly one copy of `line` (sender ids taken from the user table), nobody else got anything
+pub open spec fn delivered_to(old_log: Seq<(int, Seq<char>)>, new_log: Seq<(int, Seq<char>)>, users: Map<String, User>, members: Set<String>, line: Seq<char>) -> bool {
+    exists|order: Seq<String>|
+        #![trigger order.no_duplicates()]
+        order.no_duplicates()
+        && (forall|n: String| order.contains(n) <==> members.contains(n))
+        && new_log == old_log + order.map_values(|n: String| (users[n].sender.id(), line))
+}
+// bookkeeping of the argument iterator against the validator's walk (vstate): `rem` = what margs_it has left before letter idx
+pub open spec fn args_inv(ms: Seq<char>, args: Seq<&str>, idx: int, rem: Seq<&&str>, half: bool) -> bool {
+    let n = args.len() as int;
+    &&& rem.len() <= n
+    &&& n - rem.len() <= vstate(ms, idx, n).1
+    &&& (half ==> n - rem.len() == vstate(ms, idx, n).1)
+    &&& forall|t: int| 0 <= t < rem.len() ==> (#[trigger] rem[t]) == &args[n - rem.len() + t]
+}
+// the actor lacks the rank the letter needs (first match of the loop body: answered with 482)
+pub open spec fn letter_refused(c: char, chum: ChannelUserModes) -> bool {
+    ||| (c == 'q' && !chum.founder)
+    ||| (c == 'a' && !is_prot(chum))
+    ||| ((c == 'o' || c == 'h') && !is_op(chum))
+    ||| ((c == 'i' || c == 'm' || c == 't' || c == 'n' || c == 's' || c == 'l' || c == 'k' || c == 'v') && !half_op(chum))
+}
+
 impl MainState {
-//@fn state/srv_query_cmds.rs MainState::process_mode_channel unit=modechan props=C08,C05 rules=R2,R6,R14,R18
+// ---- block A: the privilege check of one letter (first `match mchar`): lower ranks are answered with ERR_CHANOPRIVSNEEDED ----
+//@block state/srv_query_cmds.rs MainState::process_mode_channel mode_check_privs unit=modeletter props=C08,C05 rules=R2 from=~|match mchar \{| fromk=1 balanced=1
+//@head
+    pub async fn mode_check_privs<'a>(&self, conn_state: &mut ConnState, chum: &ChannelUserModes, target: &'a str, mchar: char, if_op: bool, if_half_op: bool) -> (r: Result<(), HErr>)
+//@prologue
+        let client = conn_state.user_state.client_name();
+//@epilogue
+        Ok(())
+//@spec
+        requires if_op == is_op(*chum), if_half_op == half_op(*chum),
+        ensures
+            conn_same_but_stream(*final(conn_state), *old(conn_state)), // @prop C08
+            r is Ok,
+            letter_refused(mchar, *chum) ==> final(conn_state).stream.log() == old(conn_state).stream.log().push(fed(self.config.name@,
+                Reply::ErrChanOpPrivsNeeded482 { client: str_of(client_name_spec(old(conn_state).user_state)), channel: target })), // @prop C08
+            !letter_refused(mchar, *chum) ==> final(conn_state).stream.log() == old(conn_state).stream.log(), // @prop C08
+//@open
+        broadcast use bridge;
+//@end
+
+// ---- block B: the effect of one letter (second `match mchar`) ----
+//@block state/srv_query_cmds.rs MainState::process_mode_channel mode_apply_letter unit=modeletter props=C08,C05 rules=R2,R14,R18 from=~|match mchar \{| fromk=2 balanced=1
 //@iterize ban,exception,inv_ex
-//@opaque ~let mode_string = if !modes_params_string\.is_empty\(\) \{
-                let mode_string = verif_join_mode_string(mode_string, &modes_params_string);
+//@head
+    pub async fn mode_apply_letter<'a>(&self, conn_state: &mut ConnState, chanobj: &mut Channel, chum: &ChannelUserModes, target: &'a str, mchar: char,
+            mode_set_in: bool, margs_it: &mut std::slice::Iter<'_, &'a str>, if_op: bool, if_half_op: bool,
+            set_modes_string_in: String, unset_modes_string_in: String, modes_params_string_in: String,
+            Ghost(o): Ghost<Channel>, Ghost(ms): Ghost<Seq<char>>, Ghost(args): Ghost<Seq<&str>>, Ghost(idx): Ghost<int>)
+            -> (r: Result<(bool, String, String, String), HErr>)
+//@prologue
+        let client = conn_state.user_state.client_name();
+//@glue
+        let mut mode_set = mode_set_in;
+        let mut set_modes_string = set_modes_string_in;
+        let mut unset_modes_string = unset_modes_string_in;
+        let mut modes_params_string = modes_params_string_in;
+//@epilogue
+        Ok((mode_set, set_modes_string, unset_modes_string, modes_params_string))
 //@spec
         requires
             chan_wf(*old(chanobj)),
             old(conn_state).user_state.nick is Some,
-            forall|n: String| old(chanobj).users@.contains_key(n) ==> users@.contains_key(n),
-            all_mode_args_ok(modes@),
+            mode_frame(o, *old(chanobj), *chum),
+            if_op == is_op(*chum), if_half_op == half_op(*chum),
+            0 <= idx < ms.len(), mchar == ms[idx], mode_args_ok(ms, args),
+            mode_set_in == vstate(ms, idx, args.len() as int).0,
+            args_inv(ms, args, idx, IteratorSpec::remaining(&*old(margs_it)), if_half_op),
         ensures
             conn_same_but_stream(*final(conn_state), *old(conn_state)), // @prop C08
             chan_wf(*final(chanobj)), // @prop C04
             // a change needs the rank the statement demands; everything the actor is not entitled to stays as it was
-            mode_frame(*old(chanobj), *final(chanobj), *chum), // @prop C08
+            mode_frame(o, *final(chanobj), *chum), // @prop C08
+            r is Ok ==> (r->Ok_0).0 == vstate(ms, idx + 1, args.len() as int).0, // @prop C08
+            r is Ok ==> args_inv(ms, args, idx + 1, IteratorSpec::remaining(&*final(margs_it)), if_half_op), // @prop C05
 //@open
         broadcast use group_hash_axioms, bridge, ax_string_add_assign_req, lemma_cover_is_exact;
-        let ghost o = *old(chanobj);
-        let ghost mds = modes@;
-//@loop ~for \(mchars, margs\) in modes iter=ito
-                invariant
-                    ito.seq() == mds,
-                    conn_same_but_stream(*conn_state, *old(conn_state)), conn_state.user_state.nick is Some, // @prop C08
-                    chan_wf(*chanobj), // @prop C04
-                    mode_frame(o, *chanobj, *chum), // @prop C08
-                    if_op == is_op(*chum), if_half_op == half_op(*chum),
-                    all_mode_args_ok(mds),
-//@after ~for \(mchars, margs\) in modes
-                let ghost ms = mchars@;
-                let ghost args = margs@;
-                let ghost n = margs@.len() as int;
-                proof {
-                    assert((mchars, margs) == mds[ito.index@ as int]);
-                    assert(mode_args_ok(ms, args));
-                }
-//@loop ~for mchar in mchars\.chars\(\) iter=itc
-                    invariant
-                        itc.seq() == ms, ms == mchars@, args == margs@, n == args.len(),
-                        mode_args_ok(ms, args),
-                        conn_same_but_stream(*conn_state, *old(conn_state)), conn_state.user_state.nick is Some, // @prop C08
-                        chan_wf(*chanobj), // @prop C04
-                        mode_frame(o, *chanobj, *chum), // @prop C08
-                        if_op == is_op(*chum), if_half_op == half_op(*chum),
-                        all_mode_args_ok(mds),
-                        mode_set == vstate(ms, itc.index@ as int, n).0,
-                        IteratorSpec::remaining(&margs_it).len() <= n,
-                        n - IteratorSpec::remaining(&margs_it).len() <= vstate(ms, itc.index@ as int, n).1,
-                        if_half_op ==> n - IteratorSpec::remaining(&margs_it).len() == vstate(ms, itc.index@ as int, n).1,
-                        forall|t: int| 0 <= t < IteratorSpec::remaining(&margs_it).len() ==> (#[trigger] IteratorSpec::remaining(&margs_it)[t]) == &args[n - IteratorSpec::remaining(&margs_it).len() + t],
-//@after ~for mchar in mchars\.chars\(\)
-                    broadcast use group_hash_axioms, bridge, ax_string_add_assign_req, lemma_cover_is_exact;
-                    let ghost idx = itc.index@ as int;
-                    let ghost rem0 = IteratorSpec::remaining(&margs_it);
-                    proof {
-                        assert(mchar == ms[idx]);
-                        let st = vstate(ms, idx, n);
-                        assert(vstate(ms, idx + 1, n) == (
-                            if mchar == '+' { (true, st.1) } else if mchar == '-' { (false, st.1) }
-                            else if takes_mask(mchar) { (st.0, if st.1 < n { st.1 + 1 } else { st.1 }) }
-                            else if takes_nick(mchar) { (st.0, st.1 + 1) }
-                            else if mchar == 'l' || mchar == 'k' { (st.0, if st.0 { st.1 + 1 } else { st.1 }) }
-                            else { st })) by { reveal_with_fuel(vstate, 2); }
-                    }
+        let ghost n = args.len() as int;
+        let ghost rem0 = IteratorSpec::remaining(&*margs_it);
+        proof {
+            let st = vstate(ms, idx, n);
+            assert(vstate(ms, idx + 1, n) == (
+                if mchar == '+' { (true, st.1) } else if mchar == '-' { (false, st.1) }
+                else if takes_mask(mchar) { (st.0, if st.1 < n { st.1 + 1 } else { st.1 }) }
+                else if takes_nick(mchar) { (st.0, st.1 + 1) }
+                else if mchar == 'l' || mchar == 'k' { (st.0, if st.0 { st.1 + 1 } else { st.1 }) }
+                else { st })) by { reveal_with_fuel(vstate, 2); }
+        }
 //@before ~chanobj\.add_operator\(arg\);
                                                 let ghost mid = *chanobj;
 //@after ~chanobj\.add_operator\(arg\);
@@ -185,15 +257,205 @@ impl MainState {
                                         invariant conn_same_but_stream(*conn_state, *old(conn_state)),
 //@loop ~for e in inv_ex\.iter\(\) iter=iti
                                         invariant conn_same_but_stream(*conn_state, *old(conn_state)),
+//@end
+
+// ---- block B, second proof pass over the same text: the EFFECT of the letter (kept apart from the frame / well-formedness pass: every
+// postcondition is re-proved on each of the ~70 paths of the match, and the quantified context of chan_wf / mode_frame makes that expensive) ----
+//@block state/srv_query_cmds.rs MainState::process_mode_channel mode_apply_letter_effect unit=modeletter2 props=C08 passof=mode_apply_letter
+//@spec
+        requires
+            old(conn_state).user_state.nick is Some,
+            if_op == is_op(*chum), if_half_op == half_op(*chum),
+            0 <= idx < ms.len(), mchar == ms[idx], mode_args_ok(ms, args),
+            mode_set_in == vstate(ms, idx, args.len() as int).0,
+            args_inv(ms, args, idx, IteratorSpec::remaining(&*old(margs_it)), if_half_op),
+        ensures
+            // an entitled actor gets the flag / key / limit letter applied with the sign in force
+            r is Ok && if_half_op ==> mv_of(final(chanobj).modes) == mv_step(mv_of(old(chanobj).modes), mchar, mode_set_in, arg_at(args, vstate(ms, idx, args.len() as int).1)), // @prop C08
+//@open
+        broadcast use group_hash_axioms, bridge, ax_string_add_assign_req;
+        let ghost n = args.len() as int;
+//@loop ~for b in ban\.iter\(\) iter=itb
+                                        invariant conn_same_but_stream(*conn_state, *old(conn_state)),
+//@loop ~for e in exception\.iter\(\) iter=ite
+                                        invariant conn_same_but_stream(*conn_state, *old(conn_state)),
+//@loop ~for e in inv_ex\.iter\(\) iter=iti
+                                        invariant conn_same_but_stream(*conn_state, *old(conn_state)),
+//@end
+
+// ---- block B, third proof pass: the effect of a rank letter and of a list letter ----
+//@block state/srv_query_cmds.rs MainState::process_mode_channel mode_apply_letter_ranks unit=modeletter3 props=C08 passof=mode_apply_letter
+//@spec
+        requires
+            old(conn_state).user_state.nick is Some,
+            if_op == is_op(*chum), if_half_op == half_op(*chum),
+            0 <= idx < ms.len(), mchar == ms[idx], mode_args_ok(ms, args),
+            mode_set_in == vstate(ms, idx, args.len() as int).0,
+            args_inv(ms, args, idx, IteratorSpec::remaining(&*old(margs_it)), if_half_op),
+        ensures
+            // o v h q a <nick>: an entitled actor naming a member gives / takes exactly that rank of exactly that member; otherwise nothing changes
+            r is Ok && takes_nick(mchar) && if_half_op ==> ({
+                let a = sk(args[vstate(ms, idx, args.len() as int).1]);
+                if rank_entitled(mchar, *chum) && old(chanobj).users@.contains_key(a) {
+                    rank_change(*old(chanobj), *final(chanobj), a, rank_of_letter(mchar), mode_set_in)
+                } else { *final(chanobj) == *old(chanobj) }
+            }), // @prop C08
+            r is Ok && takes_nick(mchar) && !if_half_op ==> *final(chanobj) == *old(chanobj), // @prop C08
+            // b e I <mask>: a half-operator or above adds / removes exactly the normalised mask; without a mask the list is only shown
+            r is Ok && takes_mask(mchar) && if_half_op ==> ({
+                let k = vstate(ms, idx, args.len() as int).1;
+                if k < args.len() {
+                    let mk = string_of(norm_mask_spec(args[k]@));
+                    list_of(mchar, final(chanobj).modes) == (if mode_set_in { list_of(mchar, old(chanobj).modes).insert(mk) } else { list_of(mchar, old(chanobj).modes).remove(mk) })
+                } else { *final(chanobj) == *old(chanobj) }
+            }), // @prop C08
+//@open
+        broadcast use group_hash_axioms, bridge, ax_string_add_assign_req;
+        let ghost n = args.len() as int;
+        let ghost rem0 = IteratorSpec::remaining(&*margs_it);
+//@loop ~for b in ban\.iter\(\) iter=itb
+                                        invariant conn_same_but_stream(*conn_state, *old(conn_state)),
+//@loop ~for e in exception\.iter\(\) iter=ite
+                                        invariant conn_same_but_stream(*conn_state, *old(conn_state)),
+//@loop ~for e in inv_ex\.iter\(\) iter=iti
+                                        invariant conn_same_but_stream(*conn_state, *old(conn_state)),
+//@end
+
+// ---- block B, fourth proof pass: every change of the channel leaves a trace in the strings the announcement is built from ----
+//@block state/srv_query_cmds.rs MainState::process_mode_channel mode_apply_letter_trace unit=modeletter4 props=C08 passof=mode_apply_letter
+//@spec
+        requires
+            old(conn_state).user_state.nick is Some,
+            if_op == is_op(*chum), if_half_op == half_op(*chum),
+            0 <= idx < ms.len(), mchar == ms[idx], mode_args_ok(ms, args),
+            mode_set_in == vstate(ms, idx, args.len() as int).0,
+            args_inv(ms, args, idx, IteratorSpec::remaining(&*old(margs_it)), if_half_op),
+        ensures
+            // the three strings only grow ...
+            r is Ok ==> (r->Ok_0).1@.len() >= set_modes_string_in@.len() && (r->Ok_0).2@.len() >= unset_modes_string_in@.len() && (r->Ok_0).3@.len() >= modes_params_string_in@.len(), // @prop C08
+            // ... and a letter that changed anything of the channel made one of them grow (so it will be announced)
+            r is Ok && *final(chanobj) != *old(chanobj) ==> (r->Ok_0).1@.len() + (r->Ok_0).2@.len() + (r->Ok_0).3@.len()
+                > set_modes_string_in@.len() + unset_modes_string_in@.len() + modes_params_string_in@.len(), // @prop C08
+//@open
+        broadcast use group_hash_axioms, bridge, string_add;
+        proof { reveal_strlit(" +I "); reveal_strlit(" +a "); reveal_strlit(" +b "); reveal_strlit(" +e "); reveal_strlit(" +h "); reveal_strlit(" +k "); reveal_strlit(" +l "); reveal_strlit(" +o "); reveal_strlit(" +q "); reveal_strlit(" +v "); reveal_strlit(" -I "); reveal_strlit(" -a "); reveal_strlit(" -b "); reveal_strlit(" -e "); reveal_strlit(" -h "); reveal_strlit(" -o "); reveal_strlit(" -q "); reveal_strlit(" -v "); }
+//@loop ~for b in ban\.iter\(\) iter=itb
+                                        invariant conn_same_but_stream(*conn_state, *old(conn_state)),
+//@loop ~for e in exception\.iter\(\) iter=ite
+                                        invariant conn_same_but_stream(*conn_state, *old(conn_state)),
+//@loop ~for e in inv_ex\.iter\(\) iter=iti
+                                        invariant conn_same_but_stream(*conn_state, *old(conn_state)),
+//@end
+
+// ---- the handler: the two blocks chained over every letter of every mode string; the announcement ----
+//@fn state/srv_query_cmds.rs MainState::process_mode_channel unit=modechan props=C08,C05 rules=R2,R6,R14
+//@blockcall mode_check_privs
+                    self.mode_check_privs(conn_state, chum, target, mchar, if_op, if_half_op).await?;
+//@blockcall mode_apply_letter
+                    let (ms__, s1__, s2__, s3__) = self.mode_apply_letter(conn_state, chanobj, chum, target, mchar, mode_set, &mut margs_it, if_op, if_half_op,
+                        set_modes_string, unset_modes_string, modes_params_string, Ghost(o), Ghost(ms), Ghost(args), Ghost(idx)).await?;
+                    mode_set = ms__; set_modes_string = s1__; unset_modes_string = s2__; modes_params_string = s3__;
+//@opaque ~let mode_string = if !modes_params_string\.is_empty\(\) \{
+                let mode_string = verif_join_mode_string(mode_string, &modes_params_string);
+//@spec
+        requires
+            chan_wf(*old(chanobj)),
+            old(conn_state).user_state.nick is Some,
+            forall|n: String| old(chanobj).users@.contains_key(n) ==> users@.contains_key(n),
+            all_mode_args_ok(modes@),
+        ensures
+            conn_same_but_stream(*final(conn_state), *old(conn_state)), // @prop C08
+            chan_wf(*final(chanobj)), // @prop C04
+            // a change needs the rank the statement demands; everything the actor is not entitled to stays as it was
+            mode_frame(*old(chanobj), *final(chanobj), *chum), // @prop C08
+            // an actor entitled to them (half-operator or above) gets every flag / key / limit letter applied, in order, with the sign in force
+            r is Ok && half_op(*chum) && modes@.len() > 0 ==> mv_of(final(chanobj).modes) == mv_all(modes@, modes@.len() as int, mv_of(old(chanobj).modes)), // @prop C08
+            // the announcement reaches every member once or nobody ...
+            r is Ok ==> (final(outbox).log == old(outbox).log
+                || exists|line: Seq<char>| delivered_to(old(outbox).log, final(outbox).log, users@, final(chanobj).users@.dom(), line)), // @prop C08
+            // ... and every accepted change is announced to all members
+            r is Ok && *final(chanobj) != *old(chanobj) ==> exists|line: Seq<char>| delivered_to(old(outbox).log, final(outbox).log, users@, final(chanobj).users@.dom(), line), // @prop C08
+//@open
+        broadcast use group_hash_axioms, bridge, ax_string_add_assign_req, lemma_cover_is_exact;
+        let ghost o = *old(chanobj);
+        let ghost mds = modes@;
+        proof { assert(mv_all(mds, 0, mv_of(o.modes)) == mv_of(o.modes)) by { reveal_with_fuel(mv_all, 1); } }
+//@loop ~for \(mchars, margs\) in modes iter=ito
+                invariant
+                    ito.seq() == mds, o == *old(chanobj),
+                    conn_same_but_stream(*conn_state, *old(conn_state)), conn_state.user_state.nick is Some, // @prop C08
+                    chan_wf(*chanobj), // @prop C04
+                    mode_frame(o, *chanobj, *chum), // @prop C08
+                    if_op == is_op(*chum), if_half_op == half_op(*chum),
+                    all_mode_args_ok(mds),
+                    if_half_op ==> mv_of(chanobj.modes) == mv_all(mds, ito.index@ as int, mv_of(o.modes)), // @prop C08
+                    outbox.log == old(outbox).log, // @prop C08
+                    set_modes_string@.len() + unset_modes_string@.len() + modes_params_string@.len() == 0 ==> *chanobj == o, // @prop C08
+//@after ~for \(mchars, margs\) in modes
+                let ghost ms = mchars@;
+                let ghost args = margs@;
+                let ghost n = margs@.len() as int;
+                let ghost v0 = mv_of(chanobj.modes);
+                proof {
+                    assert((mchars, margs) == mds[ito.index@ as int]);
+                    assert(mode_args_ok(ms, args));
+                    assert(mv_after(ms, args, 0, v0) == v0) by { reveal_with_fuel(mv_after, 1); }
+                    assert(mv_all(mds, ito.index@ + 1, mv_of(o.modes)) == mv_after(ms, args, ms.len() as int, mv_all(mds, ito.index@ as int, mv_of(o.modes)))) by { reveal_with_fuel(mv_all, 2); }
+                }
+//@loop ~for mchar in mchars\.chars\(\) iter=itc
+                    invariant
+                        itc.seq() == ms, ms == mchars@, args == margs@, n == args.len(), o == *old(chanobj),
+                        mode_args_ok(ms, args),
+                        conn_same_but_stream(*conn_state, *old(conn_state)), conn_state.user_state.nick is Some, // @prop C08
+                        chan_wf(*chanobj), // @prop C04
+                        mode_frame(o, *chanobj, *chum), // @prop C08
+                        if_op == is_op(*chum), if_half_op == half_op(*chum),
+                        mode_set == vstate(ms, itc.index@ as int, n).0,
+                        if_half_op ==> mv_of(chanobj.modes) == mv_after(ms, args, itc.index@ as int, v0), // @prop C08
+                        args_inv(ms, args, itc.index@ as int, IteratorSpec::remaining(&margs_it), if_half_op), // @prop C05
+                        outbox.log == old(outbox).log, // @prop C08
+                        set_modes_string@.len() + unset_modes_string@.len() + modes_params_string@.len() == 0 ==> *chanobj == o, // @prop C08
+//@after ~for mchar in mchars\.chars\(\)
+                    let ghost idx = itc.index@ as int;
+                    proof {
+                        assert(mchar == ms[idx]);
+                        let st = vstate(ms, idx, n);
+                        assert(mv_after(ms, args, idx + 1, v0) == mv_step(mv_after(ms, args, idx, v0), mchar, st.0, arg_at(args, st.1))) by { reveal_with_fuel(mv_after, 2); }
+                    }
+//@before ~for unick in chanobj\.users\.keys\(\)
+                let ghost log0 = outbox.log;
+                let ghost line = disp::<String>(conn_state.user_state.source@, mode_string);
+                let ghost members = chanobj.users@.dom();
+                let ghost mut order: Seq<String> = Seq::empty();
 //@loop ~for unick in chanobj\.users\.keys\(\) iter=itu
                     invariant
                         conn_same_but_stream(*conn_state, *old(conn_state)), chan_wf(*chanobj), mode_frame(o, *chanobj, *chum), o == *old(chanobj),
                         forall|q: String| chanobj.users@.contains_key(q) ==> users@.contains_key(q),
-                        itu.seq().no_duplicates(), itu.seq().len() == chanobj.users@.dom().len(),
-                        forall|q: String| chanobj.users@.dom().contains(q) ==> exists|i: int| 0 <= i < itu.seq().len() && *#[trigger] itu.seq()[i] == q,
+                        members == chanobj.users@.dom(), log0 == old(outbox).log, line == disp::<String>(conn_state.user_state.source@, mode_string),
+                        itu.seq().no_duplicates(), itu.seq().len() == members.len(),
+                        forall|q: String| members.contains(q) ==> exists|i: int| 0 <= i < itu.seq().len() && *#[trigger] itu.seq()[i] == q,
+                        order.len() == itu.index@,
+                        order.no_duplicates(),
+                        forall|j: int, l: int| #![trigger order[j], itu.seq()[l]] 0 <= j < order.len() && order.len() <= l < itu.seq().len() ==> order[j] != *itu.seq()[l],
+                        forall|i: int| 0 <= i < order.len() ==> members.contains(#[trigger] order[i]),
+                        forall|j: int| 0 <= j < itu.index@ ==> order[j] == *#[trigger] itu.seq()[j],
+                        outbox.log == log0 + order.map_values(|n: String| (users@[n].sender.id(), line)), // @prop C08
 //@after ~for unick in chanobj\.users\.keys\(\)
                     broadcast use group_hash_axioms, bridge, lemma_cover_is_exact;
-                    proof { assert(chanobj.users@.dom().contains(*unick)); }
+                    proof { assert(members.contains(*unick)); }
+//@endloop ~for unick in chanobj\.users\.keys\(\)
+                    proof {
+                        assert forall|j: int| 0 <= j < order.len() implies order[j] != *unick by { }
+                        let f = |n: String| (users@[n].sender.id(), line);
+                        assert(order.push(*unick).map_values(f) =~= order.map_values(f).push(f(*unick)));
+                        order = order.push(*unick);
+                    }
+//@afterloop ~for unick in chanobj\.users\.keys\(\)
+                proof {
+                    assert(order.len() == members.len());
+                    lemma_nodup_subset_full(order, members);
+                    assert(delivered_to(old(outbox).log, outbox.log, users@, chanobj.users@.dom(), line));
+                }
 //@end
 }
 // ASSUMED stand-in for the rendering `[&mode_string, &modes_params_string[1..]].join(" ")` / `modes_params_string[1..].to_string()`
